@@ -200,61 +200,97 @@ def _check_state(res, kind, params, hist, op, obj, mstate):
     return probs
 
 
-def _bfs(res, kind, start, depth, record=None):
+def _start_state(kind, start):
+    s0 = (dict(BASE[start][0]), dict(BASE[start][1]), tuple(1 if j == start else 0 for j in range(len(BASE))))
+    if kind == "partial":
+        s0 += (start in UNKNOWN,)
+    return s0
+
+
+def _build(kind, start, hist):
+    """fresh real objects (fresh constants, fresh base equilibria) with `hist` replayed on them, the model advanced in
+    lock-step: no object is shared between two states of the search, so a state's observations depend on its own
+    history only and are reproduced by replaying it.  Returns (object | 'EXC ..', model state, params, base)."""
     from chempy import Equilibrium
 
     params = _mk_params(kind)
     base = [Equilibrium(r, p, params[i]) for i, (r, p) in enumerate(BASE)]
-    s0 = (dict(BASE[start][0]), dict(BASE[start][1]), tuple(1 if j == start else 0 for j in range(len(BASE))))
-    if kind == "partial":
-        s0 += (start in UNKNOWN,)
-    seen = {canon(s0): (base[start], ())}
-    frontier = [(s0, base[start], ())]
+    obj, m = base[start], _start_state(kind, start)
+    for op in hist:
+        obj = _apply(obj, op, base)
+        m = _model(m, op)
+        if isinstance(obj, str):
+            break
+    return obj, m, params, base
+
+
+def _operands_intact(obj, mstate, base, params):
+    return dict(obj.reac) == mstate[0] and dict(obj.prod) == mstate[1] and all(
+        dict(b.reac) == BASE[i][0] and dict(b.prod) == BASE[i][1] and (b.param is params[i] or b.param == params[i]) for i, b in enumerate(base))
+
+
+def check_transition(res, kind, start, hist, op):
+    """returns (model successor, real successor) for a correct, expandable transition, else None"""
+    obj, mstate, params, base = _build(kind, start, hist)
+    m2 = _model(mstate, op)
+    h2 = hist + (op,)
+    got = _apply(obj, op, base)
+    case = dict(kind=kind, start=start, hist=[list(o) for o in h2])
+    if not _operands_intact(obj, mstate, base, params):
+        res.outcomes["OPERAND-mutated"] += 1
+        res.violation("C11|%s|operand-mutated" % op[0], "history %r changed one of its operands (now %s)" % (h2, obj), dict(case, what="operand"), str(obj), None)
+    if not any(m_net(m2)):
+        # the zero combination must be refused, not returned
+        if isinstance(got, str):
+            res.outcomes["zero-combination-refused"] += 1
+        else:
+            res.outcomes["ZERO-combination-returned"] += 1
+            res.violation("C11|%s|zero-combination-returned" % op[0], "history %r yields the empty equilibrium %r instead of raising" % (h2, str(got)), case, str(got), "exception")
+        return None
+    if kind == "partial" and isinstance(got, str) and op[0] in ("add", "sub") and (mstate[3] != (op[1] in UNKNOWN)):
+        res.outcomes["mixed-known-unknown-refused"] += 1
+        return None  # K * None: refusing is as good as returning a constant-free equilibrium
+    probs = _check_state(res, kind, params, hist, op, got, m2)
+    if probs:
+        res.outcomes["WRONG"] += 1
+        res.violation("C11|%s|%s" % (op[0], probs[0].split(" ")[0] + "-" + probs[0].split(" ")[1]), "start b%d, history %r: %s" % (start, h2, "; ".join(probs)), case, probs, None)
+        return None
+    res.outcomes["ok-" + ("netted" if op[0] in ("add", "sub") else "scaled")] += 1
+    return m2, got
+
+
+def _bfs(res, kind, start, depth, record=None):
+    s0 = _start_state(kind, start)
+    seen = {canon(s0): ()}
+    frontier = [(s0, ())]
     res.states += 1
     ops = _ops()
     for d in range(depth):
         nxt = []
-        for mstate, obj, hist in frontier:
+        for mstate, hist in frontier:
             for op in ops:
                 res.transitions += 1
                 res.evaluations += 1
                 res.symbols[op[0]] += 1
-                m2 = _model(mstate, op)
-                h2 = hist + (op,)
-                got = _apply(obj, op, base)
-                case = dict(kind=kind, start=start, hist=[list(o) for o in h2])
-                if not any(m_net(m2)):
-                    # the zero combination must be refused, not returned
-                    if isinstance(got, str):
-                        res.outcomes["zero-combination-refused"] += 1
-                    else:
-                        res.outcomes["ZERO-combination-returned"] += 1
-                        res.violation("C11|%s|zero-combination-returned" % op[0], "history %r yields the empty equilibrium %r instead of raising" % (h2, str(got)), case, str(got), "exception")
+                r = check_transition(res, kind, start, hist, op)
+                if r is None:
                     continue
-                if kind == "partial" and isinstance(got, str) and op[0] in ("add", "sub") and (mstate[3] != (op[1] in UNKNOWN)):
-                    res.outcomes["mixed-known-unknown-refused"] += 1
-                    continue  # K * None: refusing is as good as returning a constant-free equilibrium
-                probs = _check_state(res, kind, params, hist, op, got, m2)
-                if probs:
-                    res.outcomes["WRONG"] += 1
-                    res.violation("C11|%s|%s" % (op[0], probs[0].split(" ")[0] + "-" + probs[0].split(" ")[1]), "start b%d, history %r: %s" % (start, h2, "; ".join(probs)), case, probs, None)
-                    if isinstance(got, str):
-                        continue
-                else:
-                    res.outcomes["ok-" + ("netted" if op[0] in ("add", "sub") else "scaled")] += 1
+                m2, got = r
+                h2 = hist + (op,)
                 k = canon(m2)
                 if k in seen:
                     res.dedup_hits += 1
-                    other, oh = seen[k]
+                    # differential oracle: another history reaching the same model state gives an equal object
+                    other = _build(kind, start, seen[k])[0]
                     res.evaluations += 1
-                    if not isinstance(got, str) and not (got == other and dict(got.reac) == dict(other.reac) and dict(got.prod) == dict(other.prod)):
-                        if not probs:
-                            res.violation("C11|differential|same-state-different-object", "histories %r and %r reach the same model state but unequal objects %s / %s" % (h2, oh, got, other), case, str(got), str(other))
+                    if not (got == other and dict(got.reac) == dict(other.reac) and dict(got.prod) == dict(other.prod)) and kind != "symbolic":
+                        res.violation("C11|differential|same-state-different-object", "histories %r and %r reach the same model state but unequal objects %s / %s" % (h2, seen[k], got, other),
+                                      dict(kind=kind, start=start, hist=[list(o) for o in h2], other=[list(o) for o in seen[k]], what="differential"), str(got), str(other))
                 else:
-                    seen[k] = (got, h2)
+                    seen[k] = h2
                     res.states += 1
                     res.nontrivial += 1
-                    nxt.append((m2, got, h2))
+                    nxt.append((m2, h2))
                     if record is not None and d == 0:
                         record.append((m2, got))
                     if res.states % 211 == 1:
@@ -406,30 +442,18 @@ def replay(case):
         sub = run_chunk(("ASRX",), "quick")
         res.violations = [v for v in sub.violations if v["case"] == case]
     else:
-        params = _mk_params(k)
-        base = [Equilibrium(r, p, params[i]) for i, (r, p) in enumerate(BASE)]
-        start = case["start"]
-        m = (dict(BASE[start][0]), dict(BASE[start][1]), tuple(1 if j == start else 0 for j in range(len(BASE))))
-        if k == "partial":
-            m += (start in UNKNOWN,)
-        obj = base[start]
-        hist = [tuple(o) for o in case["hist"]]
-        for n, op in enumerate(hist):
-            m2 = _model(m, op)
-            got = _apply(obj, op, base)
-            if n == len(hist) - 1:
-                if not any(m_net(m2)):
-                    if not isinstance(got, str):
-                        res.violation("C11|%s|zero-combination-returned" % op[0], "zero combination returned", case, str(got), "exception")
-                elif k == "partial" and isinstance(got, str) and op[0] in ("add", "sub") and (m[3] != (op[1] in UNKNOWN)):
-                    pass
-                else:
-                    probs = _check_state(res, k, params, tuple(hist[:n]), op, got, m2)
-                    if probs:
-                        res.violation("C11|%s|%s" % (op[0], probs[0].split(" ")[0] + "-" + probs[0].split(" ")[1]), "; ".join(probs), case, probs, None)
-            if isinstance(got, str):
-                break
-            m, obj = m2, got
+        hist = tuple(tuple(o) for o in case["hist"])
+        if case.get("what") == "differential":
+            got = _build(k, case["start"], hist)[0]
+            other = _build(k, case["start"], tuple(tuple(o) for o in case["other"]))[0]
+            if not (got == other and dict(got.reac) == dict(other.reac) and dict(got.prod) == dict(other.prod)):
+                res.violation("C11|differential|same-state-different-object", "unequal objects %s / %s" % (got, other), case, str(got), str(other))
+        else:
+            check_transition(res, k, case["start"], hist[:-1], hist[-1])
+            if case.get("what") == "operand":
+                res.violations = [v for v in res.violations if v["key"].endswith("operand-mutated")]
+            else:
+                res.violations = [v for v in res.violations if not v["key"].endswith("operand-mutated")] or res.violations
     if res.violations:
         v = res.violations[0]
         return dict(key=v["key"], what=v["what"], observed=v["observed"], expected=v["expected"])
